@@ -51,6 +51,17 @@ fn weak_audit<E, S>(name: &str, c: &RawLRU<FK, FV, E, S>) -> Result<(), String> 
     if a.map_len > a.forward.len() {
         return Err(format!("{}:map_len={}>chain={}", name, a.map_len, a.forward.len()));
     }
+    // every node of the chain is live memory (checked above), so its payload can be looked at: a key or value that
+    // was already dropped must not be reachable through the list (iterators and peeks would hand it out)
+    let full = c.verif_audit(1 << 16);
+    for (_, k, v) in &full.forward {
+        if !k.is_alive() {
+            return Err(format!("{}:reachable-key-already-dropped(k{})", name, k.n));
+        }
+        if !v.is_alive() {
+            return Err(format!("{}:reachable-value-already-dropped(k{})", name, k.n));
+        }
+    }
     Ok(())
 }
 
